@@ -66,7 +66,7 @@ func c13Cases() []c13Params {
 		p.Victim = rng.Intn(p.N)
 		p.Joiner = rng.Bool()
 		p.ForcedLeave = true
-		p.Restarts = vfPick(8, 0)
+		p.Restarts = vfPick(10, 0)
 		out = append(out, p)
 	}
 	return out
@@ -160,6 +160,8 @@ type c13Scenario struct {
 	victim *c13Node
 	lg     dlog.Logger
 	others []*c13Node
+	// number of images taken when the forced-leave notification was injected (0 = no such segment)
+	forcedSeq int
 }
 
 func TestVFChild_C13Scenario(t *testing.T) {
@@ -371,6 +373,9 @@ func (sc *c13Scenario) forceLeave(g3 *key.Group) {
 	}
 	// the New state as the victim would hold it: same final group, no share of its own
 	ns := *newSt
+	sc.rec.mu.Lock()
+	sc.forcedSeq = len(sc.rec.images)
+	sc.rec.mu.Unlock()
 	select {
 	case sc.victim.daemon.completedDKGs.Chan() <- dkg.SharingOutput{BeaconID: sc.nt.beaconID, Old: oldSt, New: ns}:
 		sc.run.Count("forced_leave_injected", 1)
@@ -381,30 +386,74 @@ func (sc *c13Scenario) forceLeave(g3 *key.Group) {
 
 // ---------------------------------------------------------------- evaluation of the images
 
+// label names the crash window an image belongs to. It is derived from WHAT CHANGED on disk since the previous
+// image (so it does not depend on which goroutine's hook happened to take the picture first); windows of the first
+// DKG and of a resharing are kept apart because their consequences differ.
 func (sc *c13Scenario) label(img *c13Image, prevEpoch, epoch uint32) string {
 	if img.Synth != "" {
 		return img.Synth
 	}
-	if img.Own {
-		return img.Hook
+	if img.Hook == "final" && len(img.Changed) == 0 {
+		return "final"
 	}
-	dkgChanged, other := false, ""
-	for _, c := range img.Changed {
-		if strings.TrimPrefix(c, "-") == c13RelDKG {
-			dkgChanged = true
-		} else {
-			other = filepath.Base(c)
+	phase := "@reshare"
+	if epoch <= 1 {
+		phase = "@dkg1"
+	}
+	has := func(rel string) (changed, deleted bool) {
+		for _, c := range img.Changed {
+			if c == rel {
+				changed = true
+			}
+			if c == "-"+rel {
+				deleted = true
+			}
+		}
+		return
+	}
+	size := func(rel string) int64 {
+		if fi, err := os.Stat(filepath.Join(img.Dir, rel)); err == nil {
+			return fi.Size()
+		}
+		return -1
+	}
+	if ch, del := has(c13RelShare); ch || del {
+		switch {
+		case del:
+			if _, gdel := has(c13RelGroup); gdel {
+				return "key.reset.after"
+			}
+			return "key.reset.mid"
+		case size(c13RelShare) == 0:
+			return "key.save.created:share" + phase
+		default:
+			return "key.save.after:share" + phase
 		}
 	}
-	if dkgChanged {
+	if ch, del := has(c13RelGroup); ch || del {
+		switch {
+		case del:
+			return "key.reset.after"
+		case size(c13RelGroup) == 0:
+			return "key.save.created:group" + phase
+		default:
+			return "key.save.after:group" + phase
+		}
+	}
+	if ch, _ := has(c13RelDKG); ch {
 		if epoch != prevEpoch {
-			return "dkgstore.savefinished.after"
+			return "dkgstore.savefinished.after" + phase
 		}
 		return "dkgstore.save.after"
 	}
-	if other != "" {
-		return "async:" + other
+	if ch, _ := has(c13RelChain); ch {
+		return "store.put.after"
+	}
+	if img.Seq == 0 {
+		return "initial"
+	}
+	if len(img.Changed) > 0 {
+		return "other:" + filepath.Base(strings.TrimPrefix(img.Changed[0], "-"))
 	}
 	return img.Hook
 }
-
